@@ -37,6 +37,7 @@ type c05Case struct {
 	Unclean    bool      `json:"unclean"`     // first-step materials / last-step products carry paths that are not in cleaned form
 	StepName   string    `json:"step_name"`
 	Repeats    int       `json:"repeats"`
+	Namesake   string    `json:"namesake,omitempty"` // "" | first | last: an inspection carries the name of that step (its unsigned link is no counted link)
 }
 
 func c05Gen(t *rapid.T) c05Case {
@@ -59,6 +60,7 @@ func c05Gen(t *rapid.T) c05Case {
 	c.HonestFail = rapid.IntRange(0, 4).Draw(t, "honestfail") == 0
 	c.EmptyLast = rapid.IntRange(0, 4).Draw(t, "emptylast") == 0
 	c.Unclean = rapid.IntRange(0, 3).Draw(t, "unclean") == 0
+	c.Namesake = rapid.SampledFrom([]string{"", "", "", "first", "last"}).Draw(t, "namesake")
 	return c
 }
 
@@ -153,6 +155,17 @@ func c05Run(c c05Case, r *hx.Rec) error {
 			w.Links[i].Meta.Link.Products["./dist/../dist/app.tar.gz"] = map[string]string{"sha256": "33"}
 		}
 		r.Label("unclean-paths")
+	}
+	if c.Namesake != "" {
+		// the verify work flow never rejects an inspection that is called like a step; what such an inspection
+		// records locally is not what the functionaries agreed on
+		name := layCopy.Steps[0].Name
+		if c.Namesake == "last" {
+			name = layCopy.Steps[len(layCopy.Steps)-1].Name
+		}
+		layCopy.Inspect = append(append([]hx.MInspection{}, layCopy.Inspect...), hx.MInspection{Type: "inspection", Name: name,
+			Run: []string{"@EMIT@", "w:written-by-the-inspection.txt:local"}, ExpMat: [][]string{{"ALLOW", "*"}}, ExpProd: [][]string{{"ALLOW", "*"}}})
+		r.Label("inspection-named-like-%s-step", c.Namesake)
 	}
 	diffApplied := ""
 	if c.Diff != nil && c.Diff.Step < len(layCopy.Steps) {
